@@ -530,4 +530,114 @@ example : ∃ sys0 s : Sys, ∃ rs, ∃ ta tb : Tcb,
 /-- the two calm states above (two lost segments + one unsent byte; one lost segment, nothing unsent), evaluated -/
 example : closeLossCheck = true := by decide
 
+/-- both applications read what has arrived, `close A`, a fair round of `2n + 2` phases -/
+def closeLossFrontR (n : Nat) (s : Sys) : Except String Sys :=
+  match s.step (.read .A) with
+  | .error e => .error e
+  | .ok (s1, _) =>
+  match s1.step (.read .B) with
+  | .error e => .error e
+  | .ok (s2, _) => closeLossFrontN n s2
+
+/-- **Close after loss, receive buffers arbitrary**: `c03_close_after_loss_partial` without the hypothesis that the
+    receive buffers are empty — the schedule starts with both applications reading what has arrived.  From EVERY
+    reachable state (MTUs ≥ 100) in which both endpoints are ESTABLISHED and the peer B is idle (`SND.UNA = SND.NXT`,
+    nothing unsent) — anything on the closer's retransmission queue, any amount of unsent text, any reorder heap on B's
+    side, any receive buffers, one-shot queues and timers —: `closeLossFrontR n` (= `read A`, `read B`, `close A`,
+    `fairRound (2n + 2)`) ends with A in FIN-WAIT-2, B in CLOSE-WAIT holding everything A submitted, both at rest;
+    `releaseTail` then deletes both TCBs with both streams complete and exact. -/
+theorem c03_close_after_loss_read_partial (ia ib : Seq) (ma mb : U16) (simultaneous : Bool) (sys0 s : Sys)
+    (rs : List Res) (hma : 100 ≤ ma.toNat) (hmb : 100 ≤ mb.toNat)
+    (h0 : Sys.run {} [.open .A ia ma, if simultaneous then .open .B ib mb else .listen .B ib mb] = .ok (sys0, rs))
+    (hrun : PlainRun sys0 s) (h31 : RoomH s) (ta tb : Tcb) (hta : s.a.tcb = some ta) (htb : s.b.tcb = some tb)
+    (ea : ta.state = .Established) (eb : tb.state = .Established)
+    (hub : tb.snd.una = tb.snd.nxt) (tbt : tb.outgoing.text = [])
+    (n : Nat) (hlen : ta.outgoing.text.length ≤ 65535 * n) :
+    ∃ s1 ta1 tb1 s2, closeLossFrontR n s = .ok s1 ∧ FinRun s s1 ∧ s1.a.tcb = some ta1 ∧ s1.b.tcb = some tb1 ∧
+      ta1.state = .FinWait2 ∧ tb1.state = .CloseWait ∧ RestX .A ta1 tb1 ∧ RestX .B tb1 ta1 ∧
+      s1.b.delivered = s1.a.submitted ∧ s1.a.submitted = s.a.submitted ∧
+      releaseTail s1 = .ok s2 ∧ FinRun s s2 ∧ s2.a.tcb = none ∧ s2.b.tcb = none ∧
+      s2.b.delivered = s2.a.submitted ∧ s2.a.delivered = s2.b.submitted ∧
+      s2.a.submitted = s.a.submitted ∧ s2.b.submitted = s.b.submitted := by
+  have hsa : (s.side .A).tcb = some ta := hta
+  have hsb : (s.side .B).tcb = some tb := htb
+  obtain ⟨r1, q1, st1, h1a, h1p, h1sub, _, _⟩ := read_facts_gen s .A ta hsa
+  have h1pb : r1.side .B = s.side .B := h1p
+  have h1b : (r1.side .B).tcb = some tb := by rw [h1pb]; exact hsb
+  obtain ⟨r2, q2, st2, h2b, h2p, h2sub, _, _⟩ := read_facts_gen r1 .B tb h1b
+  have h2pa : r2.side .A = r1.side .A := h2p
+  have h2a : (r2.side .A).tcb = some ta.receive.1 := by rw [h2pa]; exact h1a
+  rw [receive_established ta ea] at h2a
+  rw [receive_established tb eb] at h2b
+  have p02 : PlainRun s r2 :=
+    (PlainRun.step (op := .read .A) (.refl _) trivial st1).trans (.step (op := .read .B) (.refl _) trivial st2)
+  have hsubA : (r2.side .A).submitted = (s.side .A).submitted := by rw [h2pa, h1sub]
+  have hsubB : (r2.side .B).submitted = (s.side .B).submitted := by rw [h2sub, h1pb]
+  have h31' : RoomH r2 := ⟨by show (r2.side .A).submitted.length + 2 < _; rw [hsubA]; exact h31.1,
+    by show (r2.side .B).submitted.length + 2 < _; rw [hsubB]; exact h31.2⟩
+  obtain ⟨s1, ta1, tb1, s2, e1, f1, k1a, k1b, sa, sb, qa, qb, d1, u1, e2, _, f2, na, nb, d2, d3, v1, v2⟩ :=
+    c03_close_after_loss_partial ia ib ma mb simultaneous sys0 r2 rs hma hmb h0 (hrun.trans p02) h31'
+      ({ ta with incoming.text := [] } : Tcb) ({ tb with incoming.text := [] } : Tcb) h2a h2b ea eb rfl rfl hub tbt n hlen
+  refine ⟨s1, ta1, tb1, s2, ?_, (FinRun.of_plain p02).trans f1, k1a, k1b, sa, sb, qa, qb, d1, u1.trans hsubA, e2,
+    (FinRun.of_plain p02).trans f2, na, nb, d2, d3, v1.trans hsubA, v2.trans hsubB⟩
+  unfold closeLossFrontR
+  rw [st1]
+  dsimp only
+  rw [st2]
+  exact e1
+
+/-- as `roughDataOps`, but B's application has NOT read: B first receives [1, 2, 3] (history element 3) and keeps them in
+    its receive buffer; [4, 5] (element 4) is LOST; A's application writes [6] -/
+def unreadOps : List Op :=
+  [.emit .A, .deliver .B 0, .emit .B, .deliver .A 1, .emit .A, .deliver .B 2,
+   .write .A [1, 2, 3], .emit .A, .deliver .B 3, .emit .B, .write .A [4, 5], .emit .A, .write .A [6]]
+
+def closeUnreadCheck : Bool :=
+  match Sys.run {} [.open .A 1000 1500, .listen .B 5000 1500] with
+  | .ok (sys0, _) =>
+    match plainRunB sys0 unreadOps with
+    | some s =>
+      decide (s.a.submitted.length + 2 < 2147483648) && decide (s.b.submitted.length + 2 < 2147483648) &&
+      (match s.a.tcb, s.b.tcb with
+        | some ta, some tb => ta.state == .Established && tb.state == .Established &&
+            tb.snd.una == tb.snd.nxt && tb.outgoing.text.isEmpty && tb.incoming.text == [1, 2, 3] &&
+            ta.outgoing.text == [6] && ta.outgoing.retransmit.length == 2 && s.b.delivered == []
+        | _, _ => false) &&
+      (match closeLossFrontR 1 s with
+        | .ok s1 =>
+          (match s1.a.tcb, s1.b.tcb with
+            | some ta1, some tb1 => ta1.state == .FinWait2 && tb1.state == .CloseWait
+            | _, _ => false) && s1.b.delivered == [1, 2, 3, 4, 5, 6] &&
+          (match releaseTail s1 with
+            | .ok s2 => s2.a.tcb.isNone && s2.b.tcb.isNone && s2.b.delivered == [1, 2, 3, 4, 5, 6] && s2.a.delivered == []
+            | .error _ => false)
+        | .error _ => false)
+    | none => false
+  | .error _ => false
+
+/-- the hypotheses of `c03_close_after_loss_read_partial` hold in that reachable state (`n = 1`; B's receive buffer holds
+    [1, 2, 3] unread, its ACK of them was emitted but never delivered, [4, 5] was lost), and the schedule, evaluated -/
+example : ∃ sys0 s : Sys, ∃ rs, ∃ ta tb : Tcb,
+    Sys.run {} [.open .A 1000 1500, if false then .open .B 5000 1500 else .listen .B 5000 1500] = .ok (sys0, rs) ∧
+    PlainRun sys0 s ∧ RoomH s ∧ s.a.tcb = some ta ∧ s.b.tcb = some tb ∧
+    ta.state = .Established ∧ tb.state = .Established ∧ tb.snd.una = tb.snd.nxt ∧ tb.outgoing.text = [] ∧
+    tb.incoming.text = [1, 2, 3] ∧ ta.outgoing.text.length ≤ 65535 * 1 ∧ ta.outgoing.retransmit.length = 2 := by
+  have key : closeUnreadCheck = true := by decide
+  unfold closeUnreadCheck at key
+  split at key
+  · rename_i sys0 rs e0
+    split at key
+    · rename_i s e1
+      simp only [Bool.and_eq_true, decide_eq_true_eq] at key
+      obtain ⟨⟨⟨r1, r2⟩, k1⟩, _⟩ := key
+      split at k1
+      · rename_i ta tb hta htb
+        simp only [Bool.and_eq_true, List.isEmpty_iff, beq_iff_eq] at k1
+        obtain ⟨⟨⟨⟨⟨⟨⟨x1, x2⟩, x3⟩, x4⟩, x5⟩, x6⟩, x7⟩, _⟩ := k1
+        exact ⟨sys0, s, rs, ta, tb, e0, plainRunB_sound _ _ _ e1, ⟨r1, r2⟩,
+          hta, htb, x1, x2, x3, x4, x5, by rw [x6]; decide, x7⟩
+      · simp at k1
+    · simp at key
+  · simp at key
+
 end Elvis.Tcp
